@@ -183,7 +183,7 @@ PROPS["C04"] = dict(
     kani=["c10_int_cmp", "c10_float_cmp", "c10_mixed_eq", "c11_int_arith", "c11_int_rem_class", "c11_int_div_class", "c11_float_add", "c11_float_sub",
           "c11_float_div_class", "c11_float_rem_class", "c11_mixed_add_sub", "c11_mixed_div_class", "k_abs_int", "k_abs_float", "k_to_int_scalar", "k_to_float_scalar",
           "k_try_and_table", "k_try_boolean"],
-    kani_quick=["c10_int_cmp", "c11_int_arith", "c11_int_rem_class", "k_abs_int", "k_abs_float", "k_to_int_scalar", "k_to_float_scalar"],
+    kani_quick=["c10_int_cmp", "c11_int_arith", "c11_int_rem_class", "c11_int_div_class", "c11_float_div_class", "c11_mixed_div_class", "k_abs_int", "k_abs_float", "k_to_int_scalar", "k_to_float_scalar"],
     trusted=["panic-freedom is claimed only for the functions listed under functions_under_contract, under each unit's stated preconditions (e.g. non-empty blocks, len + |index| < isize::MAX)"],
     not_covered=["lexer, LALRPOP parser, diagnostics formatter, grok, protobuf and ~180 stdlib functions are UNVERIFIED for panics",
                  "memory/stack exhaustion (out of scope by the property)", "Kani does not prove termination"],
